@@ -23,6 +23,7 @@ has parameters) and "the AST resolver does not hit the AttributeError" (`resolve
 -/
 import Jap.Lemmas.ResolverClean
 import Jap.Lemmas.ResolverMod
+import Jap.Lemmas.ResolverBinder
 import Jap.Lemmas.ResolverTie
 import Jap.Gen.ResolverSites
 
@@ -160,40 +161,102 @@ theorem C13_own_parameters_win (P : Prog) (c : CId) (wh : Where) (body : Callabl
   exact ⟨List.mem_append_left _ hp, fun q hq hname => own_unique hnd hext hp hq hname⟩
 
 
-/-! ### programs spread over modules (`Jap/Core/ResolverMod.lean`): name resolution per defining module -/
+/-! ### programs spread over modules (`Jap/Core/ResolverMod.lean`): name resolution per defining module
+
+Full statement: `∀ MP c n, n ∈ names (resolveM MP c) ↔ acceptsM MP c n` for well-formed linked programs.  It is FALSE
+for the model, hence for the code, in exactly two lookups that `_parameter_resolvers.py` does differently from Python
+(`modules_full_fails_two_arg_super`, `modules_full_fails_local_import_shadowed`; both are corpus cases confirmed on the
+real resolver and interpreter).  `C13_exact_modules` carries their decidable complements as hypotheses. -/
 
 /-- THE property for programs spread over any number of modules: every body is linked in the global table of
     the module that DEFINES it (the resolver: `inspect.getmodule(self.component)`; the interpreter: the function's
     `__globals__`), identifiers may denote different callables in different modules, constants may have different
-    truth values per module — offered ⇔ accepted. -/
-theorem C13_exact_modules (MP : MProg) (c : CId) (hW : WfProg (link MP) = true) (hc : c.valid MP.src = true)
+    truth values per module — offered ⇔ accepted, provided no inherited `super(X, self)` is searched in a module that
+    does not bind `X` by name (`noForeignTwoArgSuper`) and no import inside a body is shadowed by a module global
+    (`noShadowedLocalImport`). -/
+theorem C13_exact_modules (MP : MProg) (c : CId) (hS : noForeignTwoArgSuper MP = true) (hL : noShadowedLocalImport MP = true)
+    (hW : WfProg (link MP) = true) (hc : c.valid MP.src = true)
     (hnc : resolveOutM MP c ≠ .crash) (n : String) :
-    n ∈ names (resolveM MP c) ↔ acceptsM MP c n = true :=
-  C13_exact (link MP) c hW (by rw [link_valid]; exact hc) hnc n
+    n ∈ names (resolveM MP c) ↔ acceptsM MP c n = true := by
+  have e := linkS_eq_linkD hS hL
+  unfold resolveOutM at hnc
+  unfold resolveM acceptsM
+  rw [e] at hnc ⊢
+  exact C13_exact (linkD MP) c hW (by rw [link_valid]; exact hc) hnc n
 
 /-- … with hypotheses on the program text only (`noPopClash` of the linked program): the resolver does not raise -/
-theorem C13_exact_modules_syntactic (MP : MProg) (c : CId) (hW : WfProg (link MP) = true) (hC : noPopClash (link MP) = true)
+theorem C13_exact_modules_syntactic (MP : MProg) (c : CId) (hS : noForeignTwoArgSuper MP = true)
+    (hL : noShadowedLocalImport MP = true) (hW : WfProg (link MP) = true) (hC : noPopClash (link MP) = true)
     (hc : c.valid MP.src = true) (n : String) :
-    n ∈ names (resolveM MP c) ↔ acceptsM MP c n = true :=
-  C13_exact_modules MP c hW hc (C13_no_crash (link MP) c hW hC) n
+    n ∈ names (resolveM MP c) ↔ acceptsM MP c n = true := by
+  refine C13_exact_modules MP c hS hL hW hc ?_ n
+  unfold resolveOutM
+  rw [linkS_eq_linkD hS hL]
+  exact C13_no_crash (linkD MP) c hW hC
 
-/-- … and every offered parameter keeps name, type, default and kind of a definition of the linked program. -/
+/-- … and every offered parameter keeps name, type, default and kind of a definition of the program as the resolver reads it. -/
 theorem C13_keeps_sig_modules (MP : MProg) (c : CId) (p : Param) (hp : p ∈ resolveM MP c) :
-    p.dflt.isCond = true ∨ ∃ q ∈ (link MP).defs, sameSig p q :=
-  C13_keeps_sig (link MP) c p hp
+    p.dflt.isCond = true ∨ ∃ q ∈ (linkS MP).defs, sameSig p q :=
+  C13_keeps_sig (linkS MP) c p hp
 
-/-- The globals of a module matter only for program text that lives in it: two source programs with the same text,
-    module assignment and classmethod definers whose tables agree on every module that holds a body
-    (`usesModule`) offer and accept the same.  In particular what a module that merely subclasses / imports binds
-    under the identifiers used by the library's bodies is irrelevant. -/
+/-- The globals of a module matter only for program text that lives in it: two source programs (no imports inside
+    bodies, no foreign two-argument super) with the same text, module assignment and classmethod definers whose tables
+    agree on every module that holds a body (`usesModule`) offer and accept the same.  In particular what a module that
+    merely subclasses / imports binds under the identifiers used by the library's bodies is irrelevant.
+    (Without `noForeignTwoArgSuper` this is FALSE for the resolver: `foreign_globals_matter_two_arg_super`.) -/
 theorem C13_foreign_globals_irrelevant (MP MP' : MProg) (hs : MP'.src = MP.src) (hm : MP'.modOf = MP.modOf)
-    (hcd : MP'.cmDef = MP.cmDef) (h : ∀ m, MP.usesModule m = true → MP'.moduleAt m = MP.moduleAt m) (c : CId) :
+    (hcd : MP'.cmDef = MP.cmDef) (hl : MP.localImp = []) (hl' : MP'.localImp = [])
+    (hS : noForeignTwoArgSuper MP = true) (hS' : noForeignTwoArgSuper MP' = true)
+    (h : ∀ m, MP.usesModule m = true → MP'.moduleAt m = MP.moduleAt m) (c : CId) :
     resolveOutM MP' c = resolveOutM MP c ∧ ∀ n, acceptsM MP' c n = acceptsM MP c n := by
-  have hl := link_congr MP MP' hs hm hcd h
+  have hl0 := link_congr MP MP' hs hm hcd hl hl' h
   unfold resolveOutM acceptsM
-  rw [hl]
+  rw [linkS_eq_linkD hS (nolocal_noShadow hl), linkS_eq_linkD hS' (nolocal_noShadow hl'), hl0]
   exact ⟨rfl, fun _ => rfl⟩
 
+
+/-! ### type and default of the definition that binds the name at run time (`binder`)
+
+Full statement ("each keeps the type and default of the signature it comes from"):
+    ∀ P c p q, p ∈ resolve P c → binder P c p.name = some q → q.ty = p.ty ∧ q.dflt = p.dflt
+FALSE for the model, hence for the code: `type_default_full_fails_nested_pop` (open finding
+C13-nested-pop-takes-callee-signature).  Proved here: the binder is a definition of the program with that name
+(`C13_binder_is_definition`), agreement for the parameters of the visited signature — shadowing, the child's type and
+default win on both sides (`C13_binder_own`), and agreement under the explicit decidable hypothesis `defsAgree P n`
+(every definition of the name in the program carries the same annotation and default: `C13_type_default_partial`).
+The remaining class — a name defined with DIFFERENT signatures at several places of one call chain, none of them the
+visited signature — is compared on every generated program by the harness (model `binder` vs the traced interpreter). -/
+
+/-- whatever binds `n=` at run time is a definition of the program called `n`, and the call is accepted -/
+theorem C13_binder_is_definition (P : Prog) (c : CId) (n : String) (q : Param) (h : binder P c n = some q) :
+    q ∈ P.defs ∧ q.name = n ∧ accepts P c n = true := by
+  unfold binder at h
+  split at h
+  · rename_i ha
+    exact ⟨(binderF_ok _ _ _ h).1, (binderF_ok _ _ _ h).2, ha⟩
+  · cases h
+
+/-- Shadowing, both sides: a parameter of the visited signature is offered as it is (`C13_own_parameters_win`) and it IS
+    the definition that binds the name when the component is called — for EVERY program. -/
+theorem C13_binder_own (P : Prog) (c : CId) (wh : Where) (body : Callable)
+    (hb : frameBody P c.frame = some (wh, body)) (hnd : (names body.params).Nodup) (p : Param) (hp : p ∈ body.params) :
+    binder P c p.name = some p := by
+  obtain ⟨ha, hbd⟩ := own_param_bound hb hnd hp
+  unfold binder accepts
+  rw [ha]
+  exact hbd
+
+/-- Type/default agreement under the forced hypothesis: when every definition of the name in the program carries the
+    same annotation and default (`defsAgree`), an offered parameter that is not marked `Conditional` has exactly the
+    annotation and default of the definition that binds it at run time — for EVERY program. -/
+theorem C13_type_default_partial (P : Prog) (c : CId) (p q : Param) (hp : p ∈ resolve P c)
+    (hnc : p.dflt.isCond = false) (hA : defsAgree P p.name = true) (hb : binder P c p.name = some q) :
+    q.ty = p.ty ∧ q.dflt = p.dflt := by
+  obtain ⟨hq, hqn, _⟩ := C13_binder_is_definition P c p.name q hb
+  rcases C13_keeps_sig P c p hp with hc | ⟨d, hd, hdn, hdt, hdd, _⟩
+  · rw [hnc] at hc; cases hc
+  · have := defsAgree_eq hA hq hd hqn hdn
+    exact ⟨this.1.trans hdt, this.2.trans hdd⟩
 
 /-! ### tie: the statements of `_parameter_resolvers.py` that the model transcribes (regenerated into `Gen/ResolverSites.lean`) -/
 
@@ -251,7 +314,7 @@ def diamond : Prog := ⟨[
   klass (some ⟨[pk "d" "int" "0"], true, [al (.superCall none 0 [])]⟩) [],
   klass (some ⟨[pk "b" "int" "1"], true, [al (.superCall none 0 [])]⟩) [0],
   klass (some ⟨[pk "c" "str" "c", pk "b" "str" "from-c"], true, [al (.superCall none 0 ["d"])]⟩) [0],
-  klass (some ⟨[pk "a" "int" "3"], true, [al (.pop "z" (dv "9")), al (.superCall none 0 [])]⟩) [1, 2, 0]]⟩
+  klass (some ⟨[pk "a" "int" "3"], true, [al (.pop "z" (dv "9")), al (.superCall none 0 [])]⟩) [1, 2, 0]], []⟩
 
 example : WfProg diamond = true := by decide
 example : noPopClash diamond = true := by decide
@@ -270,7 +333,7 @@ def chain : Prog := ⟨[
   .fn ⟨[req "a" "int", pk "b" "str" "x", ko "c" "float" "2.5"], false, []⟩,
   .fn ⟨[pk "p" "int" "1"], true, [al (.pop "n" (dv "3")), al (.call (.entry 0) 1 ["c"])]⟩,
   klass (some ⟨[pk "k" "int" "0"], true, [al (.call (.entry 1) 0 ["p"])]⟩) [],
-  klass none [2]]⟩
+  klass none [2]], []⟩
 
 example : WfProg chain = true := by decide
 example : names (resolve chain (.entry 3)) = ["k", "n", "b"] := by decide
@@ -288,7 +351,7 @@ def attrProg : Prog :=
   ⟨[.fn ⟨[pk "a" "int" "0", pk "b" "str" "x", pk "c" "float" "1.0"], false, []⟩,
     .cls ⟨some ⟨[pk "e" "int" "1"], true, [al (.pop "z" (dv "1")), al (.call (.attrEntry 0) 1 ["c"])]⟩, [], [], [mk]⟩,
     .cls ⟨some ⟨[pk "g" "int" "0"], true, [al (.superCall none 0 [])]⟩, [1], [], [mk]⟩,
-    .fn ⟨[pk "t" "str" "t"], true, [al (.call (.classMeth 2 0) 1 [])]⟩]⟩
+    .fn ⟨[pk "t" "str" "t"], true, [al (.call (.classMeth 2 0) 1 [])]⟩], []⟩
 
 example : WfProg attrProg = true ∧ noPopClash attrProg = true := by decide
 example : names (resolve attrProg (.entry 1)) = ["e", "z", "b"] := by decide
@@ -304,7 +367,7 @@ example : accepts attrProg (.entry 3) "c" = false ∧ accepts attrProg (.entry 3
 def nestedProg : Prog := ⟨[
   klass (some ⟨[pk "label" "str" "l", pk "size" "int" "1", pk "color" "str" "c"], false, []⟩) [],
   klass (some ⟨[], true, [al (.superCall none 0 ["label"]), al (.popIn "title" (dv "untitled"))]⟩) [0],
-  .fn ⟨[], true, [al (.call (.entry 0) 1 ["size"]), al (.popIn "t2" (dv "t")), al (.popIn "level" (dv "1"))]⟩]⟩
+  .fn ⟨[], true, [al (.call (.entry 0) 1 ["size"]), al (.popIn "t2" (dv "t")), al (.popIn "level" (dv "1"))]⟩], []⟩
 
 example : WfProg nestedProg = true := by decide
 /-- the resolver records the call first, then the nested pop (AST-visit order) -/
@@ -327,13 +390,14 @@ def libUser (userGlobals : List (Nat × Nat)) : MProg :=
       klass (some ⟨[pk "e" "int" "1"], true, [al (.pop "z" (dv "1")), ⟨.const false, .call (.entry 0) 1 ["c"]⟩]⟩) [],
       .fn ⟨[pk "y" "int" "5", pk "a" "str" "s", pk "w" "bool" "True"], false, []⟩,
       klass none [1],
-      .fn ⟨[pk "t" "str" "t"], true, [al (.call (.entry 1) 0 [])]⟩]⟩,
+      .fn ⟨[pk "t" "str" "t"], true, [al (.call (.entry 1) 0 [])]⟩], []⟩,
     modOf := [0, 0, 1, 1, 1],
     cmDef := [[], [], [], [], []],
     mods := [⟨[(0, 0)], true⟩, ⟨userGlobals, false⟩] }
 
 example : WfProg (link (libUser [(0, 2), (1, 3)])) = true ∧ noPopClash (link (libUser [(0, 2), (1, 3)])) = true ∧
-    (CId.entry 3).valid (libUser [(0, 2), (1, 3)]).src = true := by decide
+    (CId.entry 3).valid (libUser [(0, 2), (1, 3)]).src = true ∧ noForeignTwoArgSuper (libUser [(0, 2), (1, 3)]) = true ∧
+    noShadowedLocalImport (libUser [(0, 2), (1, 3)]) = true := by decide
 /-- the inherited `__init__` forwards to the LIBRARY's `build`, whatever `build` is in the user module -/
 example : names (resolveM (libUser [(0, 2), (1, 3)]) (.entry 3)) = ["e", "z", "b"] := by decide
 example : names (resolveM (libUser [(0, 2), (1, 3)]) (.entry 4)) = ["t", "e", "z", "b"] := by decide
@@ -344,7 +408,7 @@ example : (libUser [(0, 2), (1, 3)]).usesModule 1 = true ∧ names (resolveM (li
 /-- … a module WITHOUT text is irrelevant (`C13_foreign_globals_irrelevant` is not vacuous): a third module that only subclasses -/
 def threeMods (g : List (Nat × Nat)) : MProg :=
   { libUser [(0, 2), (1, 3)] with
-    src := ⟨(libUser []).src.entries ++ [klass none [1]]⟩, modOf := [0, 0, 1, 1, 1, 2], cmDef := [[], [], [], [], [], []],
+    src := ⟨(libUser []).src.entries ++ [klass none [1]], []⟩, modOf := [0, 0, 1, 1, 1, 2], cmDef := [[], [], [], [], [], []],
     mods := [⟨[(0, 0)], true⟩, ⟨[(0, 2), (1, 3)], false⟩, ⟨g, false⟩] }
 example : (threeMods []).usesModule 2 = false ∧ (threeMods []).usesModule 0 = true := by decide
 example : names (resolveM (threeMods [(0, 2)]) (.entry 5)) = ["e", "z", "b"] ∧
@@ -352,9 +416,94 @@ example : names (resolveM (threeMods [(0, 2)]) (.entry 5)) = ["e", "z", "b"] ∧
 /-- with the constants of the library NOT flipped the forwarding call is dead code there -/
 example : names (resolveM { libUser [(0, 2), (1, 3)] with mods := [⟨[(0, 0)], false⟩, ⟨[(0, 2), (1, 3)], false⟩] } (.entry 3)) = ["e", "z"] := by decide
 
+
+/-- finding C13-two-arg-super-foreign-module.  lib (module 0): K0(a: int = 0, b: str = 'x');
+      class K1(K0): __init__(self, c=1, **kw): super(K1, self).__init__(**kw);   class K2(K1): pass
+    user (module 1, table `g`; `from lib import K2`): class K3(K2): pass.     symbols 10..13 = the names K0..K3 -/
+def superW (g : List (Nat × Nat)) : MProg :=
+  { src := ⟨[
+      klass (some ⟨[pk "a" "int" "0", pk "b" "str" "x"], false, []⟩) [],
+      klass (some ⟨[pk "c" "int" "1"], true, [al (.superCall (some 1) 0 [])]⟩) [0],
+      klass none [1, 0],
+      klass none [2, 1, 0]], []⟩,
+    modOf := [0, 0, 0, 1], cmDef := [[], [], [], []],
+    mods := [⟨[(10, 0), (11, 1), (12, 2)], false⟩, ⟨g, false⟩],
+    nameSym := [10, 11, 12, 13] }
+
+theorem modules_full_fails_two_arg_super :
+    WfProg (link (superW [(12, 2), (13, 3)])) = false ∧ noForeignTwoArgSuper (superW [(12, 2), (13, 3)]) = false ∧
+    (linkS (superW [(12, 2), (13, 3)])).superMap = [((3, 1), none)] ∧
+    names (resolveM (superW [(12, 2), (13, 3)]) (.entry 3)) = ["c"] ∧
+    names (resolveM (superW [(12, 2), (13, 3)]) (.entry 2)) = ["c", "a", "b"] ∧
+    ¬ ("a" ∈ names (resolveM (superW [(12, 2), (13, 3)]) (.entry 3)) ↔ acceptsM (superW [(12, 2), (13, 3)]) (.entry 3) "a" = true) := by
+  decide
+
+/-- the same program when the user module also does `from lib import K1`: nothing is lost -/
+example : noForeignTwoArgSuper (superW [(11, 1), (12, 2), (13, 3)]) = true ∧
+    names (resolveM (superW [(11, 1), (12, 2), (13, 3)]) (.entry 3)) = ["c", "a", "b"] := by decide
+
+/-- the user module holds no body, yet what it binds changes what the resolver offers -/
+theorem foreign_globals_matter_two_arg_super :
+    (superW [(12, 2), (13, 3)]).usesModule 1 = false ∧
+    resolveOutM (superW [(11, 1), (12, 2), (13, 3)]) (.entry 3) ≠ resolveOutM (superW [(12, 2), (13, 3)]) (.entry 3) ∧
+    ∀ n, acceptsM (superW [(11, 1), (12, 2), (13, 3)]) (.entry 3) n = acceptsM (superW [(12, 2), (13, 3)]) (.entry 3) n := by
+  refine ⟨by decide, by decide, fun n => ?_⟩
+  have := link_congr (superW [(12, 2), (13, 3)]) (superW [(11, 1), (12, 2), (13, 3)]) rfl rfl rfl rfl rfl
+    (fun m hm => by
+      match m with
+      | 0 => rfl
+      | 1 => exact absurd hm (by decide)
+      | (k + 2) => rfl)
+  unfold acceptsM
+  rw [this]
+
+/-- finding C13-local-import-shadowed-by-module-global.  lib (module 0): def f0(a: int = 0, b: str = 'x')
+    user (module 1): def f0(zz: int = 3, a: str = 's');  def f2(t='t', **kw): from lib import f0; f0(**kw)
+    symbol 0 = the identifier `f0`, symbol 1 = that identifier as bound by the import statement in the body -/
+def localW : MProg :=
+  { src := ⟨[
+      .fn ⟨[pk "a" "int" "0", pk "b" "str" "x"], false, []⟩,
+      .fn ⟨[pk "zz" "int" "3", pk "a" "str" "s"], false, []⟩,
+      .fn ⟨[pk "t" "str" "t"], true, [al (.call (.entry 1) 0 [])]⟩], []⟩,
+    modOf := [0, 1, 1], cmDef := [[], [], []],
+    mods := [⟨[(0, 0)], false⟩, ⟨[(0, 1)], false⟩],
+    localImp := [(1, (0, 0))] }
+
+theorem modules_full_fails_local_import_shadowed :
+    WfProg (link localW) = true ∧ noForeignTwoArgSuper localW = true ∧ noShadowedLocalImport localW = false ∧
+    names (resolveM localW (.entry 2)) = ["t", "zz", "a"] ∧
+    ¬ ("zz" ∈ names (resolveM localW (.entry 2)) ↔ acceptsM localW (.entry 2) "zz" = true) ∧
+    ¬ ("b" ∈ names (resolveM localW (.entry 2)) ↔ acceptsM localW (.entry 2) "b" = true) := by
+  decide
+
+/-- without the module-level `f0` the import in the body is what both sides see -/
+example : noShadowedLocalImport { localW with mods := [⟨[(0, 0)], false⟩, ⟨[], false⟩] } = true ∧
+    names (resolveM { localW with mods := [⟨[(0, 0)], false⟩, ⟨[], false⟩] } (.entry 2)) = ["t", "a", "b"] := by decide
+
+
+/-- the diamond: `b` is defined as `int = 1` by K1 and as `str = 'from-c'` by K2; offered and bound: K1's -/
+example : binder diamond (.entry 3) "b" = some (pk "b" "int" "1") ∧ pk "b" "int" "1" ∈ resolve diamond (.entry 3) ∧
+    defsAgree diamond "b" = false ∧ binder diamond (.entry 3) "d" = none ∧
+    binder diamond (.entry 3) "z" = some (popParam "z" (dv "9")) := by decide
+/-- `defsAgree` is satisfiable by a name with several definitions (`a` of `base` and of a child repeating it) -/
+example : defsAgree chain "b" = true ∧ defsAgree diamond "c" = true := by decide
+
+/-- finding C13-nested-pop-takes-callee-signature:
+      class K0: __init__(self, h: int, e: int = 1, *, f: str = 'x')
+      class K1(K0): __init__(self, **kw): super().__init__(1, kw.pop('f', 'x'), **kw)
+    `f` is offered with K0's annotation `str`; the value given for it is consumed by the pop (no annotation) -/
+def progNestedPop : Prog := ⟨[
+  klass (some ⟨[req "h" "int", pk "e" "int" "1", ko "f" "str" "x"], false, []⟩) [],
+  klass (some ⟨[], true, [al (.superCall none 2 []), al (.popIn "f" (dv "x"))]⟩) [0]], []⟩
+
+theorem type_default_full_fails_nested_pop :
+    WfProg progNestedPop = true ∧ ko "f" "str" "x" ∈ resolve progNestedPop (.entry 1) ∧
+    binder progNestedPop (.entry 1) "f" = some (popParam "f" (dv "x")) ∧
+    (popParam "f" (dv "x")).ty ≠ (ko "f" "str" "x").ty := by decide
+
 /-- #14b: `extra = kwargs.get('extra', 5); super().__init__(**kwargs)` -/
 def progGet : Prog := ⟨[base,
-  klass (some ⟨[pk "c" "int" "1"], true, [al (.get "extra" (dv "5")), al (.superCall none 0 [])]⟩) [0]]⟩
+  klass (some ⟨[pk "c" "int" "1"], true, [al (.get "extra" (dv "5")), al (.superCall none 0 [])]⟩) [0]], []⟩
 
 theorem full_fails_get_forward :
     ¬ ("extra" ∈ names (resolve progGet (.entry 1)) ↔ accepts progGet (.entry 1) "extra" = true) := by decide
@@ -363,7 +512,7 @@ example : WfProg progGet = false := by decide
 
 /-- #14d: `a = kwargs.pop('a', 9); super().__init__(a=5, **kwargs)` -/
 def progPopHard : Prog := ⟨[base,
-  klass (some ⟨[pk "c" "int" "1"], true, [al (.pop "a" (dv "9")), al (.superCall none 0 ["a"])]⟩) [0]]⟩
+  klass (some ⟨[pk "c" "int" "1"], true, [al (.pop "a" (dv "9")), al (.superCall none 0 ["a"])]⟩) [0]], []⟩
 
 theorem full_fails_pop_hardcoded :
     ¬ ("a" ∈ names (resolve progPopHard (.entry 1)) ↔ accepts progPopHard (.entry 1) "a" = true) := by decide
@@ -374,7 +523,7 @@ example : WfProg progPopHard = false := by decide
 def progInherited : Prog := ⟨[
   klass (some ⟨[req "b" "int", pk "c" "str" "x"], false, []⟩) [],
   klass (some ⟨[], true, [al (.superCall none 1 [])]⟩) [0],
-  klass none [1, 0]]⟩
+  klass none [1, 0]], []⟩
 
 theorem full_fails_inherited_init :
     ¬ ("c" ∈ names (resolve progInherited (.entry 2)) ↔ accepts progInherited (.entry 2) "c" = true) := by decide
@@ -387,14 +536,14 @@ example : names (resolve progInherited (.entry 1)) = ["c"] := by decide
     K2(K1) pops `z` and forwards: `group_parameters` raises, `z` is lost -/
 def progCrash : Prog := ⟨[base,
   klass (some ⟨[], true, [al (.pop "a" (dv "7")), al (.superCall none 0 [])]⟩) [0],
-  klass (some ⟨[], true, [al (.pop "z" (dv "7")), al (.superCall none 0 [])]⟩) [1, 0]]⟩
+  klass (some ⟨[], true, [al (.pop "z" (dv "7")), al (.superCall none 0 [])]⟩) [1, 0]], []⟩
 
 theorem full_fails_conditional_crash :
     WfProg progCrash = true ∧ noPopClash progCrash = false ∧ resolveOut progCrash (.entry 2) = .crash ∧
     ¬ ("z" ∈ names (resolve progCrash (.entry 2)) ↔ accepts progCrash (.entry 2) "z" = true) := by decide
 
 /-- `def __init__(self, x: int = 1, **kwargs): pass` — every name is accepted, none can be offered -/
-def progUnused : Prog := ⟨[klass (some ⟨[pk "x" "int" "1"], true, []⟩) []]⟩
+def progUnused : Prog := ⟨[klass (some ⟨[pk "x" "int" "1"], true, []⟩) []], []⟩
 
 theorem full_fails_kwargs_unused :
     ¬ ("anything" ∈ names (resolve progUnused (.entry 0)) ↔ accepts progUnused (.entry 0) "anything" = true) := by decide
